@@ -512,6 +512,56 @@ def in_progress_def(rep, prog, cfg):
                     result[v] = next(iter(vals))
             how = "match on the state"
     if set(result) != set(variants):
+        # form (c): any straight evaluation of boolean constants / negations behind a match on the state (`!matches!(..)`):
+        # follow the one path each variant takes and evaluate the returned boolean
+        result = {}
+        sws = [sw for sw in tables.discr_switches(b) if sw["adt"].endswith("response::ResponseState")]
+        by_bb = {sw["bb"]: sw for sw in sws}
+        for v in variants if sws else []:
+            env = {}
+            bb = 0
+            val = None
+            for _ in range(200):
+                blk = b.blocks[bb]
+                for st in blk["s"]:
+                    if st["k"] != "assign" or st["place"]["p"]:
+                        continue
+                    rv = st["rv"]
+                    x = None
+                    if rv["k"] == "use":
+                        c = op_const(rv["op"])
+                        if c is not None and c.get("ty") == "bool":
+                            x = bool(c.get("int"))
+                        elif op_local(rv["op"]) is not None:
+                            x = env.get(op_local(rv["op"]))
+                    elif rv["k"] == "unop" and rv["op"] == "Not" and op_local(rv["a"]) is not None and env.get(op_local(rv["a"])) is not None:
+                        x = not env[op_local(rv["a"])]
+                    if x is None:
+                        env.pop(st["place"]["l"], None)
+                    else:
+                        env[st["place"]["l"]] = x
+                t = blk["t"]
+                if t["k"] == "return":
+                    val = env.get(0)
+                    break
+                if bb in by_bb:
+                    bb = by_bb[bb]["arms"].get(v, by_bb[bb]["otherwise"])
+                elif t["k"] == "switch":
+                    l = op_local(t["discr"])
+                    if l is None or env.get(l) is None:
+                        break
+                    hit = [x2 for vv, x2 in t["targets"] if vv == (1 if env[l] else 0)]
+                    bb = hit[0] if hit else t["otherwise"]
+                elif t["k"] in ("goto", "drop") or (t["k"] == "call" and t.get("target") is not None):
+                    if t["k"] == "call":
+                        env.pop(t["dest"]["l"], None)
+                    bb = t["target"]
+                else:
+                    break
+            if val is not None:
+                result[v] = val
+        how = "evaluation per state"
+    if set(result) != set(variants):
         rep.fail(rule, cfg + "/idiom", b.loc(b.span),
                  "cannot evaluate is_frame_in_progress() per builder state (unknown idiom: failing closed)")
         return
